@@ -56,6 +56,7 @@ def generate(seed, mode):
         return o.sample(range(nI), o.randint(1, min(kmax, nI)))
 
     last_ob_decl = None
+    last_xs = None
     for _ in range(nops):
         k = o.getrandbits(30)
         r = o.random()
@@ -65,6 +66,10 @@ def generate(seed, mode):
             ops.append({'op': 'perm', 'kind': o.randrange(2), 'i': o.randrange(16), 'ps': o.getrandbits(30), 'k': k})
         if narrow_bias and last_ob_decl is not None and o.random() < 0.5:
             ops.append({'op': 'conly', 'c': last_ob_decl, 'byob': True, 'xs': xs(2, True), 'v': o.randrange(2), 'k': k})
+            if o.random() < 0.6 and last_xs:
+                # ... and then the same declaration again on a sibling instance, while the first one is still alive:
+                # the request that a shared (cached) instance declaration would answer
+                ops.append({'op': 'dprov', 'o': o.randrange(16), 'sib_of': last_ob_decl, 'xs': list(last_xs), 'k': k})
             last_ob_decl = None
             continue
         last_ob_decl = None
@@ -84,10 +89,12 @@ def generate(seed, mode):
             ob = o.randrange(16)
             ops.append({'op': 'dprov', 'o': ob, 'xs': xs(3, True), 'k': k})
             last_ob_decl = ob
+            last_xs = ops[-1]['xs']
         elif r < 0.71:
             ob = o.randrange(16)
             ops.append({'op': 'aprov', 'o': ob, 'xs': xs(), 'k': k})
             last_ob_decl = ob
+            last_xs = ops[-1]['xs']
         elif r < 0.78:
             ops.append({'op': 'nprov', 'o': o.randrange(16), 'x': o.randrange(nI), 'k': k})
         elif r < 0.84:
@@ -598,6 +605,12 @@ def execute(program, ctx, mode):
                 if not live:
                     continue
                 o = live[op['o'] % len(live)]
+                if op.get('sib_of') is not None:
+                    first = live[op['sib_of'] % len(live)]
+                    sibs = [i for i in live if i != first and M.obs[i]['cls'] == M.obs[first]['cls']]
+                    if sibs:
+                        o = sibs[op['o'] % len(sibs)]
+                        ctx.probe('same-declaration-on-a-sibling-after-narrowing')
                 m = M.obs[o]
                 c = m['cls']
                 hi = M.U(c)
